@@ -51,6 +51,15 @@ pub fn run(ctx: &mut Ctx) {
             ctx.run_case("semantic_big", case, |ctx, rng| semantic_big(ctx, rng, case));
         }
     }
+    // "over the 64-bit field": if the modulus had zero divisors, `and(a, b)` of two functions
+    // whose hashes multiply to 0 would be answered False from the apply cache.  The case factors
+    // the modulus (Miller-Rabin + Pollard rho); when it is composite with a balanced split it
+    // searches (meet in the middle over the minterm weights of the builder's own map) two
+    // ordinary 6-variable functions with such hashes, builds them through and/or and checks
+    // and(a, b) against the truth table; when the modulus is prime there is nothing to find
+    for case in ctx.cases("zero_divisors", 1, false) {
+        ctx.run_case("zero_divisors", case, |ctx, _rng| zero_divisors::<{ primes::U64_LARGEST }>(ctx));
+    }
     for case in ctx.cases("semantic_ddnnf", 500, true) {
         ctx.run_case("semantic_ddnnf", case, |ctx, rng| match case % 2 {
             0 => semantic_ddnnf_case::<{ primes::U32_SMALL }>(ctx, rng, false),
@@ -415,6 +424,206 @@ fn semantic_sdd_case<const P: u128>(ctx: &mut Ctx, rng: &mut Rng, check_function
     }
     if ctx.wants_sample() {
         ctx.sample(json!({"regime": "semantic_sdd", "input": info}));
+    }
+}
+
+fn powmod(mut b: u128, mut e: u128, m: u128) -> u128 {
+    let mut r = 1u128 % m;
+    b %= m;
+    while e > 0 {
+        if e & 1 == 1 {
+            r = mulmod(r, b, m);
+        }
+        b = mulmod(b, b, m);
+        e >>= 1;
+    }
+    r
+}
+
+/// deterministic Miller-Rabin (the first 12 primes as bases decide every n < 3.3 * 10^24)
+fn is_prime(n: u128) -> bool {
+    if n < 2 {
+        return false;
+    }
+    const BASES: [u128; 12] = [2, 3, 5, 7, 11, 13, 17, 19, 23, 29, 31, 37];
+    for p in BASES {
+        if n % p == 0 {
+            return n == p;
+        }
+    }
+    let (mut d, mut s) = (n - 1, 0);
+    while d % 2 == 0 {
+        d /= 2;
+        s += 1;
+    }
+    'outer: for a in BASES {
+        let mut x = powmod(a, d, n);
+        if x == 1 || x == n - 1 {
+            continue;
+        }
+        for _ in 0..s - 1 {
+            x = mulmod(x, x, n);
+            if x == n - 1 {
+                continue 'outer;
+            }
+        }
+        return false;
+    }
+    true
+}
+
+fn gcd(mut a: u128, mut b: u128) -> u128 {
+    while b != 0 {
+        let t = a % b;
+        a = b;
+        b = t;
+    }
+    a
+}
+
+/// all prime factors (with multiplicity) by Pollard rho; deterministic sequence of constants
+fn factorize(n: u128, out: &mut Vec<u128>) {
+    if n == 1 {
+        return;
+    }
+    if is_prime(n) {
+        out.push(n);
+        return;
+    }
+    if n % 2 == 0 {
+        out.push(2);
+        return factorize(n / 2, out);
+    }
+    let mut c = 1u128;
+    loop {
+        let (mut x, mut y, mut d) = (2u128, 2u128, 1u128);
+        while d == 1 {
+            x = addmod(mulmod(x, x, n), c, n);
+            y = addmod(mulmod(y, y, n), c, n);
+            y = addmod(mulmod(y, y, n), c, n);
+            d = gcd(if x > y { x - y } else { y - x }, n);
+        }
+        if d != n {
+            factorize(d, out);
+            return factorize(n / d, out);
+        }
+        c += 1;
+    }
+}
+
+/// a set of minterms containing minterm 0 whose weights sum to 0 modulo q (meet in the middle
+/// over minterms 1..=2*half)
+fn zero_sum_subset(w: &[u128], q: u128, half: usize) -> Option<u64> {
+    let left: Vec<usize> = (1..=half).collect();
+    let right: Vec<usize> = (half + 1..=2 * half).collect();
+    let sums = |items: &[usize]| -> Vec<(u128, u32)> {
+        let mut v = vec![(0u128, 0u32)];
+        for (k, &i) in items.iter().enumerate() {
+            let wi = w[i] % q;
+            for j in 0..v.len() {
+                let (s, mask) = v[j];
+                v.push(((s + wi) % q, mask | (1 << k)));
+            }
+        }
+        v
+    };
+    let mut ls = sums(&left);
+    ls.sort();
+    let base = w[0] % q;
+    for (s, rmask) in sums(&right) {
+        let want = (2 * q - base - s) % q;
+        let idx = ls.partition_point(|probe| probe.0 < want);
+        if idx < ls.len() && ls[idx].0 == want {
+            let lmask = ls[idx].1;
+            let mut set = 1u64;
+            for k in 0..half {
+                if (lmask >> k) & 1 == 1 {
+                    set |= 1u64 << left[k];
+                }
+                if (rmask >> k) & 1 == 1 {
+                    set |= 1u64 << right[k];
+                }
+            }
+            return Some(set);
+        }
+    }
+    None
+}
+
+fn zero_divisors<const P: u128>(ctx: &mut Ctx) {
+    const N: usize = 6;
+    ctx.case_eval(Some(crate::rng::mix(0x2d ^ (P as u64))));
+    let mut fs = Vec::new();
+    factorize(P, &mut fs);
+    fs.sort();
+    ctx.count("moduli_factored", 1);
+    if fs.len() == 1 {
+        ctx.count("modulus_is_prime", 1);
+    }
+    // most balanced split of the prime factors into two co-factors
+    let (mut q1, mut q2) = (1u128, P);
+    for mask in 1u32..(1 << fs.len()) - 1 {
+        let a: u128 = fs.iter().enumerate().filter(|(i, _)| (mask >> i) & 1 == 1).map(|(_, f)| *f).product();
+        let b = P / a;
+        if u128::max(a, b) < u128::max(q1, q2) {
+            (q1, q2) = (a, b);
+        }
+    }
+    let vars: Vec<VarLabel> = (0..N).map(|i| VarLabel::new(i as u64)).collect();
+    let builder = SemanticSddBuilder::<P>::new(rsdd::repr::VTree::right_linear(&vars));
+    let b = &builder;
+    let mut w = vec![0u128; 1 << N];
+    for (m, wm) in w.iter_mut().enumerate() {
+        let mut x = 1u128;
+        for (i, v) in vars.iter().enumerate() {
+            let (lo, hi) = b.map().var_weight(*v);
+            x = mulmod(x, if (m >> i) & 1 == 1 { hi.value() } else { lo.value() }, P);
+        }
+        *wm = x;
+    }
+    // two functions (sets of minterms, both containing minterm 0): zero divisors if there are any
+    let found = if fs.len() > 1 && u128::max(q1, q2) < (1u128 << 37) {
+        match (zero_sum_subset(&w, q1, 19), zero_sum_subset(&w, q2, 19)) {
+            (Some(x), Some(y)) => Some((x, y)),
+            _ => None,
+        }
+    } else {
+        None
+    };
+    if fs.len() > 1 && found.is_none() {
+        ctx.count("composite_modulus_without_constructed_zero_divisors", 1);
+    }
+    let (ta, tb) = found.unwrap_or((0x0123_4567_89ab_cdefu64 | 1, 0xfedc_ba98_7654_3211u64));
+    let mk = |t: u64| -> SddPtr {
+        let mut f = SddPtr::PtrFalse;
+        for m in 0..(1usize << N) {
+            if (t >> m) & 1 == 1 {
+                let mut c = SddPtr::PtrTrue;
+                for i in (0..N).rev() {
+                    c = b.and(b.var(VarLabel::new(i as u64), (m >> i) & 1 == 1), c);
+                }
+                f = b.or(f, c);
+            }
+        }
+        f
+    };
+    let tt_of = |p: SddPtr| -> u64 {
+        let t = SddWalker::new(N).tt(p);
+        (0..64usize).fold(0u64, |acc, m| if t.get(m) { acc | (1u64 << m) } else { acc })
+    };
+    let (a, bb) = (mk(ta), mk(tb));
+    if tt_of(a) != ta || tt_of(bb) != tb {
+        ctx.violation("semantic.sdd.zero_divisors", "a disjunction of minterms built by the hash-identified SDD builder (64-bit field) denotes a wrong function",
+            json!({"modulus": P.to_string(), "factors": fs.iter().map(|f| f.to_string()).collect::<Vec<_>>()}));
+        return;
+    }
+    let r = b.and(a, bb);
+    ctx.count("zero_divisor_conjunctions_checked", 1);
+    if tt_of(r) != ta & tb {
+        ctx.violation("semantic.sdd.zero_divisors", "and(a, b) on the hash-identified SDD builder (64-bit field) does not denote a AND b: the hashes of a and b multiply to zero",
+            json!({"modulus": P.to_string(), "factors": fs.iter().map(|f| f.to_string()).collect::<Vec<_>>(),
+                "a": format!("{:#018x}", ta), "b": format!("{:#018x}", tb), "expected": format!("{:#018x}", ta & tb), "observed": format!("{:#018x}", tt_of(r)),
+                "hash_a": b.cached_semantic_hash(a).value().to_string(), "hash_b": b.cached_semantic_hash(bb).value().to_string()}));
     }
 }
 
